@@ -135,6 +135,9 @@ def run_undisturbed_case(ctx, c):
         ctx.count("undisturbed_compared")
         if got != value:
             ctx.violation("block-upload-wrong-bytes", f"returned {len(got)} bytes {got[:40].hex()}..., server holds {len(value)} bytes {value[:40].hex()}...", c, rig.wire(30))
+        if "bul_ack_partial" in rig.server.steps_seen:
+            ctx.violation("block-upload-partial-acknowledge-undisturbed", "an undisturbed sub-block was acknowledged with a sequence number "
+                          "below the number of segments sent", c, rig.wire(30))
         if rig.server.state != "idle" or rig.server.completed != 1:
             ctx.violation("block-upload-not-closed", f"server state {rig.server.state}, completed {rig.server.completed} after a normal return", c, rig.wire(30))
     except Exception as exc:  # noqa: BLE001
